@@ -100,7 +100,7 @@ func ruleEndStreamPaths(p *Prog, r *Out) {
 						}
 					case "(*serverConn).write":
 						wr = true
-					case "(*serverConn).writeReset":
+					case "(*serverConn).writeReset", "(*serverConn).resetStream":
 						end, wr = true, true
 					}
 				})
@@ -120,7 +120,7 @@ func ruleEndStreamPaths(p *Prog, r *Out) {
 		if ifs, ok := n.(*ast.IfStmt); ok && ifs.Init != nil && strings.Contains(p.text(ifs.Init), "refillPending") {
 			rst, ret := false, false
 			inspectCalls(ifs.Body, func(c *ast.CallExpr) {
-				if p.calleeOf(c) == "(*serverConn).writeReset" {
+				if _, _, _, ok := p.resetCall(c); ok {
 					rst = true
 				}
 			})
